@@ -153,6 +153,10 @@ func (c *Conn) getRedo() [][]byte {
 	// so instead let's leverage a select. as soon as it blocks (due to chan close or no more input but not closed yet) we know we're
 	// done reading and move on. it's easy to prove in the implementer that we don't send any more data to In after calling this
 	defer c.clearRedo()
+	// the conn is dead: wait until HandleData has returned. otherwise it could still take a
+	// line out of In after we drained it and collected the keepSafe buffer, and write it to
+	// the dead socket; that line would be neither resubmitted nor counted as dropped
+	c.wg.Wait()
 	for {
 		select {
 		case buf := <-c.In:
